@@ -6,7 +6,7 @@ From PyFatV Require Import Base.Bytes Base.PyEnv Gen.Pure Model.Codec Model.Dir 
 Import ListNotations.
 Open Scope Z_scope.
 
-Definition bounded (t M:Z) (fat:list Z) : Prop := forall i, 2 <= i -> is_data t (nthZ fat i) = true -> nthZ fat i <= M.
+Definition bounded (t dm M:Z) (fat:list Z) : Prop := forall i, 2 <= i -> is_data t dm (nthZ fat i) = true -> nthZ fat i <= M.
 
 Lemma updn_beyond {A} (l:list A) : forall i v, (length l <= i)%nat -> updn l i v = l.
 Proof. induction l as [|x r IH]; intros [|k] v H; cbn in *; try reflexivity; try lia. rewrite IH by lia. reflexivity. Qed.
@@ -18,22 +18,22 @@ Proof.
     + unfold updZ. rewrite updn_beyond by (unfold lenZ in E2; lia). reflexivity.
   - cbn [andb]. apply nthZ_updZ_other; lia.
 Qed.
-Lemma bounded_updZ t M fat k v : bounded t M fat -> 0 <= k -> (is_data t v = true -> v <= M) -> bounded t M (updZ fat k v).
+Lemma bounded_updZ t dm M fat k v : bounded t dm M fat -> 0 <= k -> (is_data t dm v = true -> v <= M) -> bounded t dm M (updZ fat k v).
 Proof.
   intros Hb Hk Hv i Hi. rewrite nthZ_updZ_cases by lia. destruct ((i =? k) && (k <? lenZ fat)); [exact Hv|apply Hb; exact Hi].
 Qed.
-Lemma bounded_updZ_low t M fat k v : bounded t M fat -> 0 <= k < 2 -> bounded t M (updZ fat k v).
+Lemma bounded_updZ_low t dm M fat k v : bounded t dm M fat -> 0 <= k < 2 -> bounded t dm M (updZ fat k v).
 Proof. intros Hb Hk i Hi. rewrite nthZ_updZ_other by lia. apply Hb. exact Hi. Qed.
-Lemma bounded_link t M cs : vt t -> forall fat, bounded t M fat -> Forall (fun c => 0 <= c <= M) cs -> bounded t M (link_chain fat cs (Gen.END_OF_CLUSTER_MAX t)).
+Lemma bounded_link t dm M cs : vt t -> dok t dm -> forall fat, bounded t dm M fat -> Forall (fun c => 0 <= c <= M) cs -> bounded t dm M (link_chain fat cs (Gen.END_OF_CLUSTER_MAX t)).
 Proof.
-  intros Hv. induction cs as [|c [|d r] IH]; intros fat Hb Hf; [exact Hb| |].
+  intros Hv Hdm. induction cs as [|c [|d r] IH]; intros fat Hb Hf; [exact Hb| |].
   - cbn [link_chain]. inversion Hf as [|? ? Hc _]; subst. apply bounded_updZ; [exact Hb|lia|].
-    intros H. rewrite (eoc_not_data t _ Hv (eoc_max_is_eoc t Hv)) in H. discriminate.
+    intros H. rewrite (eoc_max_not_data t dm Hv Hdm) in H. discriminate.
   - change (link_chain fat (c :: d :: r) (Gen.END_OF_CLUSTER_MAX t)) with (link_chain (updZ fat c d) (d :: r) (Gen.END_OF_CLUSTER_MAX t)).
     inversion Hf as [|? ? Hc Hr]; subst. apply IH; [|exact Hr]. apply bounded_updZ; [exact Hb|lia|]. intros _. inversion Hr; subst. lia.
 Qed.
-Lemma bounded_free t M cs : vt t -> forall fat, bounded t M fat -> Forall (fun c => 0 <= c) cs ->
-  bounded t M (fold_left (fun f cl => updZ f cl (Gen.FREE_CLUSTER t)) cs fat).
+Lemma bounded_free t dm M cs : vt t -> forall fat, bounded t dm M fat -> Forall (fun c => 0 <= c) cs ->
+  bounded t dm M (fold_left (fun f cl => updZ f cl (Gen.FREE_CLUSTER t)) cs fat).
 Proof.
   intros Hv. destruct (vt_consts _ Hv) as (Hmin & Hfree & _). induction cs as [|c r IH]; intros fat Hb Hf; [exact Hb|].
   cbn [fold_left]. inversion Hf as [|? ? Hc Hr]; subst. apply IH; [|exact Hr]. apply bounded_updZ; [exact Hb|exact Hc|].
@@ -41,25 +41,25 @@ Proof.
 Qed.
 
 (** chains stay inside: every cluster the follower yields from a start inside the data area is inside the data area *)
-Theorem bounded_chain t M fat : vt t -> bounded t M fat -> forall f i, 2 <= i <= M -> Forall (fun c => 2 <= c <= M) (fst (chain_go f t fat i)).
+Theorem bounded_chain t dm M fat : vt t -> bounded t dm M fat -> forall f i, 2 <= i <= M -> Forall (fun c => 2 <= c <= M) (fst (chain_go f t dm fat i)).
 Proof.
   intros Hv Hb. destruct (vt_consts _ Hv) as (Hmin & _). induction f as [|g IH]; intros i Hi; [constructor|]. cbn [chain_go]. destruct (_ || _); [constructor|]. cbv zeta.
-  destruct (is_data t (nthZ fat i)) eqn:Ed.
+  destruct (is_data t dm (nthZ fat i)) eqn:Ed.
   - assert (Hn : 2 <= nthZ fat i <= M) by (split; [unfold is_data in Ed; rewrite Hmin in Ed; lia|apply Hb; [lia|exact Ed]]).
-    specialize (IH (nthZ fat i) Hn). destruct (chain_go g t fat (nthZ fat i)) as [r ok]. cbn [fst] in *. constructor; [exact Hi|exact IH].
+    specialize (IH (nthZ fat i) Hn). destruct (chain_go g t dm fat (nthZ fat i)) as [r ok]. cbn [fst] in *. constructor; [exact Hi|exact IH].
   - destruct (is_eoc t (nthZ fat i)); cbn [fst]; [constructor; [exact Hi|constructor]|constructor].
 Qed.
 
 (** * the invariant on states, and its preservation by every operation *)
-Definition fb (s:st) : Prop := vt (ft s) /\ bounded (ft s) (max_cluster s) (s_fat s).
+Definition fb (s:st) : Prop := vt (ft s) /\ bounded (ft s) (dmax s) (max_cluster s) (s_fat s).
 Definition K (s s':st) : Prop := s_h s' = s_h s /\ s_p s' = s_p s /\ (fb s -> fb s').
 Lemma K_refl s : K s s. Proof. split; [reflexivity|]. split; [reflexivity|]. intros H; exact H. Qed.
 Lemma K_trans a b c : K a b -> K b c -> K a c.
 Proof. intros (A1 & A2 & A3) (B1 & B2 & B3). split; [congruence|]. split; [congruence|]. intros H. apply B3, A3, H. Qed.
 Lemma K_samefat s s' : s_h s' = s_h s -> s_p s' = s_p s -> s_fat s' = s_fat s -> K s s'.
-Proof. intros H1 H2 H3. split; [exact H1|]. split; [exact H2|]. unfold fb, ft, max_cluster, count_of_clusters, total_sectors. rewrite H1, H2, H3. intros H; exact H. Qed.
-Lemma K_newfat s f h : (fb s -> bounded (ft s) (max_cluster s) f) -> K s (upd_fat s f h).
-Proof. intros H. split; [reflexivity|]. split; [reflexivity|]. intros Hs. split; [apply Hs|]. change (ft (upd_fat s f h)) with (ft s). change (max_cluster (upd_fat s f h)) with (max_cluster s). apply H. exact Hs. Qed.
+Proof. intros H1 H2 H3. split; [exact H1|]. split; [exact H2|]. unfold fb. rewrite (dmax_geo s s' H1 H2). unfold ft, max_cluster, count_of_clusters, total_sectors. rewrite H1, H2, H3. intros H; exact H. Qed.
+Lemma K_newfat s f h : (fb s -> bounded (ft s) (dmax s) (max_cluster s) f) -> K s (upd_fat s f h).
+Proof. intros H. split; [reflexivity|]. split; [reflexivity|]. intros Hs. split; [apply Hs|]. change (ft (upd_fat s f h)) with (ft s). change (max_cluster (upd_fat s f h)) with (max_cluster s). change (dmax (upd_fat s f h)) with (dmax s). apply H. exact Hs. Qed.
 
 Lemma K_write_at s off d s' : write_at s off d = Ok s' -> K s s'.
 Proof. intros H. apply write_at_ok in H. destruct H as [_ ->]. apply K_samefat; reflexivity. Qed.
@@ -95,7 +95,7 @@ Proof.
   intros H. pose proof (allocate_range _ _ _ _ _ H) as Hr. unfold allocate in H. destruct (s_ro s); [discriminate|].
   destruct (alloc_scan _ _ _ _ _ _) as [l j]. destruct (negb _); [discriminate|].
   assert (K1 : K s (upd_fat s (link_chain (s_fat s) l (Gen.END_OF_CLUSTER_MAX (ft s))) j)).
-  { apply K_newfat. intros [Hv Hb]. apply bounded_link; [exact Hv|exact Hb|].
+  { apply K_newfat. intros [Hv Hb]. apply bounded_link; [exact Hv|apply dmax_dok; exact Hv|exact Hb|].
     assert (cs = l) by (destruct e; [destruct (erase_clusters _ l); inversion H; reflexivity|inversion H; reflexivity]). subst l. exact Hr. }
   destruct e.
   - destruct (erase_clusters _ l) as [s2|] eqn:E; [|discriminate]. cbn [bind] in H. inversion H; subst. eapply K_trans; [exact K1|eapply K_erase_clusters; exact E].
@@ -104,7 +104,7 @@ Qed.
 Lemma chain_nonneg s c l ok : chain s c = (l, ok) -> Forall (fun x => 0 <= x) l.
 Proof.
   intros H. apply Forall_forall. intros x Hx. unfold chain in H.
-  pose proof (chain_go_in_fat (length (s_fat s)) (ft s) (s_fat s) c x) as Hc. rewrite H in Hc. cbn [fst] in Hc. destruct (Hc Hx). lia.
+  pose proof (chain_go_in_fat (length (s_fat s)) (ft s) (dmax s) (s_fat s) c x) as Hc. rewrite H in Hc. cbn [fst] in Hc. destruct (Hc Hx). lia.
 Qed.
 Lemma K_free_chain s c s' : free_chain s c = Ok s' -> K s s'.
 Proof.
@@ -225,7 +225,7 @@ Lemma K_set_eoc a x k h : K a x -> 0 <= k -> K a (upd_fat x (updZ (s_fat x) k (G
 Proof.
   intros Hr Hk. eapply K_trans; [exact Hr|]. apply K_newfat. intros [Hv Hb].
   assert (Eft : ft x = ft a) by (destruct Hr as (_ & A & _); unfold ft; rewrite A; reflexivity). rewrite <- Eft.
-  apply bounded_updZ; [exact Hb|exact Hk|]. intros H. rewrite (eoc_not_data _ _ Hv (eoc_max_is_eoc _ Hv)) in H. discriminate.
+  apply bounded_updZ; [exact Hb|exact Hk|]. intros H. rewrite (eoc_max_not_data _ _ Hv (dmax_dok _ Hv)) in H. discriminate.
 Qed.
 Ltac Kstep3 a :=
   first [ Kstep2 a
@@ -261,10 +261,10 @@ Lemma K_mark s f1 r1 s' :
              | Some m => flush_fat (upd_fat s (updZ (s_fat s) 1 (f1 (nthZ (s_fat s) 1) m)) (s_hint s))
              | None => Ok s end);
    write_bpb (upd_hdr s1 (set_reserved1 (s_h s1) (r1 (BS_Reserved1 (s_h s1)))))) = Ok s' ->
-  s_p s' = s_p s /\ s_dsize s' = s_dsize s /\ (forall v, Gen.get_total_sectors (set_reserved1 (s_h s) v) = Gen.get_total_sectors (s_h s)) /\ (fb s -> bounded (ft s) (max_cluster s) (s_fat s')).
+  s_p s' = s_p s /\ s_dsize s' = s_dsize s /\ (forall v, Gen.get_total_sectors (set_reserved1 (s_h s) v) = Gen.get_total_sectors (s_h s)) /\ (fb s -> bounded (ft s) (dmax s) (max_cluster s) (s_fat s')).
 Proof.
   intros H. match type of H with bind ?X _ = _ => destruct X as [s1|] eqn:E1; [|discriminate] end. cbn [bind] in H.
-  assert (H1 : s_p s1 = s_p s /\ s_dsize s1 = s_dsize s /\ (fb s -> bounded (ft s) (max_cluster s) (s_fat s1))).
+  assert (H1 : s_p s1 = s_p s /\ s_dsize s1 = s_dsize s /\ (fb s -> bounded (ft s) (dmax s) (max_cluster s) (s_fat s1))).
   { destruct (shutdown_mask (ft s)) as [m|]; [|inversion E1; subst; repeat split; intros [_ Hb]; exact Hb].
     pose proof (K_flush_fat _ _ E1) as (A1 & A2 & _).
     assert (Ef : s_fat s1 = updZ (s_fat s) 1 (f1 (nthZ (s_fat s) 1) m) /\ s_dsize s1 = s_dsize s).
@@ -303,7 +303,7 @@ Proof.
 Qed.
 
 (** a decidable sufficient check for concrete tables *)
-Lemma bounded_of_forallb t M fat : forallb (fun v => negb (is_data t v) || (v <=? M)) (0 :: skipn 2 fat) = true -> bounded t M fat.
+Lemma bounded_of_forallb t dm M fat : forallb (fun v => negb (is_data t dm v) || (v <=? M)) (0 :: skipn 2 fat) = true -> bounded t dm M fat.
 Proof.
   intros H i Hi Hd. rewrite forallb_forall in H.
   assert (Hin : In (nthZ fat i) (0 :: skipn 2 fat)).
